@@ -8,10 +8,12 @@
     Check/FloatSavingCheck.v).
 
     FLOAT SHAPE of the single-column penalised saving (lemma [PcF_l2_shape], by computation):
-        gpenalise F64 F64_tiny [x] alpha [0]  =  (x + 0) + (- alpha)
-    two binary64 additions: the sum of the one-element saving list ([gsum]: x + 0, exact, lemma
-    [add_zero_r]) and the subtraction of alpha (an addition of the negation; ONE rounding).
-    The prune constant is  Kf = alpha + (0 + 0), whose real value is exactly FR alpha.
+        gpenalise F64 F64_tiny [x] alpha [0]  =  x + (- alpha)
+    ONE binary64 addition: the sum of the one-element saving list is the element itself ([gsum] is
+    the left fold from the first element, NumPy's order), and the subtraction of alpha is an
+    addition of the negation (ONE rounding).
+    The prune constant is  Kf = alpha + 0 (the sum of the one-element beta list is 0 itself), whose
+    real value is exactly FR alpha (lemma [add_zero_r]).
 
     Boolean, [vm_compute]-able premises:
       - [l2_saving_all_trace_ok l]     every saving [l2_saving_F l a T], a < T <= n, passes the trace
@@ -197,42 +199,40 @@ End MagCapa.
 Definition l2ScF (l : list float) (s e : nat) : list float := [l2_saving_F l s e].
 Definition l2SpF (l : list float) (t : nat) : list float := [l2_saving_F l t (S t)].
 
-(** the float shape, by computation: (saving + 0) + (- alpha) *)
+(** the float shape, by computation: saving + (- alpha) *)
 Lemma penalise_l2_shape (x alpha : float) :
-  gpenalise F64 F64_tiny [x] alpha [0%float] = ((x + 0) + - alpha)%float.
+  gpenalise F64 F64_tiny [x] alpha [0%float] = (x + - alpha)%float.
 Proof. reflexivity. Qed.
 
 Lemma PcF_l2_shape l acf a T :
-  PcF F64_tiny (l2ScF l) acf [0%float] a T = ((l2_saving_F l a T + 0) + - acf)%float.
+  PcF F64_tiny (l2ScF l) acf [0%float] a T = (l2_saving_F l a T + - acf)%float.
 Proof. reflexivity. Qed.
 
 Lemma PpF_l2_shape l apf t :
-  PpF F64_tiny (l2SpF l) apf [0%float] t = ((l2_saving_F l t (S t) + 0) + - apf)%float.
+  PpF F64_tiny (l2SpF l) apf [0%float] t = (l2_saving_F l t (S t) + - apf)%float.
 Proof. reflexivity. Qed.
 
-Lemma Kf_l2_shape acf : Kf acf [0%float] = (acf + (0 + 0))%float.
+Lemma Kf_l2_shape acf : Kf acf [0%float] = (acf + 0)%float.
 Proof. reflexivity. Qed.
 
 (** the real value of the prune constant is exactly FR alpha *)
 Lemma Kf_l2_value acf : finF (Kf acf [0%float]) = true -> FR (Kf acf [0%float]) = FR acf.
 Proof.
   intros H. rewrite Kf_l2_shape in *.
-  change (0 + 0)%float with 0%float in *.
   apply finF_add_inv in H as [Ha _]. exact (proj2 (add_zero_r acf Ha)).
 Qed.
 
 (** ONE penalised saving: error of the saving + one rounding of the subtraction of alpha *)
 Lemma l2_pen_error (x af Magf : float) (r dS : R) :
-  finF x = true -> finF ((x + 0) + - af)%float = true ->
-  finF Magf = true -> absleF ((x + 0) + - af)%float Magf = true ->
+  finF x = true -> finF (x + - af)%float = true ->
+  finF Magf = true -> absleF (x + - af)%float Magf = true ->
   Rabs (FR x - r) <= dS ->
-  Rabs (FR ((x + 0) + - af)%float - (r - FR af)) <= dS + u53 * (FR Magf / (1 - u53)).
+  Rabs (FR (x + - af)%float - (r - FR af)) <= dS + u53 * (FR Magf / (1 - u53)).
 Proof.
   intros Hx Hz HM Hle Hd.
-  destruct (add_zero_r x Hx) as [Hy Ey].
   destruct (finF_add_inv _ _ Hz) as [_ Hna].
-  pose proof (sum_mag_from_rounded _ _ _ Hy Hna Hz HM Hle) as Hmag.
-  rewrite (FR_add53 _ _ Hy Hna Hz). rewrite Ey, FR_opp in *.
+  pose proof (sum_mag_from_rounded _ _ _ Hx Hna Hz HM Hle) as Hmag.
+  rewrite (FR_add53 _ _ Hx Hna Hz). rewrite FR_opp in *.
   pose proof (rnd53_rel (FR x + - FR af)) as Hr. pose proof u53_nonneg as Hu.
   assert (Hm : u53 * Rabs (FR x + - FR af) <= u53 * (FR Magf / (1 - u53)))
     by (apply Rmult_le_compat_l; assumption).
